@@ -162,12 +162,15 @@ def build_c(config="internal"):
     return cdir
 
 
-def build_coq(cdir):
+def build_coq(cdir, model_only=False):
     """Copy coq/ + generated files to the cache, make -k all .vo, extract, compile mdrv.
-    Returns (qdir, status) where status maps 'File.v' -> (ok, log)."""
+    Returns (qdir, status) where status maps 'File.v' -> (ok, log).
+    model_only: compile only the cone of Driver.v (the executable model) — used for the configurations
+    other than the internal-crypto one, whose generated Constants.v carries other back-end flags: the
+    theorems are about the internal configuration, the model runs in every configuration."""
     gens = [os.path.join(cdir, g) for g in GENERATED if os.path.exists(os.path.join(cdir, g))]
-    fp = _hash_files(coq_sources() + [os.path.join(VERIF, "harness/mdrv.ml")] + gens)
-    qdir = os.path.join(CACHE, f"q-{fp}")
+    fp = _hash_files(coq_sources() + [os.path.join(VERIF, "harness/mdrv.ml")] + gens, "model-only" if model_only else "")
+    qdir = os.path.join(CACHE, f"q{'m' if model_only else ''}-{fp}")
     with Lock("q"):
         if os.path.exists(os.path.join(qdir, "DONE")):
             os.utime(qdir)
@@ -190,7 +193,8 @@ def build_coq(cdir):
         if r.returncode != 0:
             raise BuildError("coq_makefile failed: " + r.stderr)
         t0 = time.time()
-        r = sh(f"timeout 3000 make -k -j{JOBS} TIMED=1 COQC='timeout 900 coqc' 2>&1", cwd=qdir, timeout=3100)
+        target = "coq/Driver.vo" if model_only else ""
+        r = sh(f"timeout 3000 make -k -j{JOBS} TIMED=1 COQC='timeout 900 coqc' {target} 2>&1", cwd=qdir, timeout=3100)
         log = r.stdout
         open(os.path.join(qdir, "make.log"), "w").write(log)
         status = {}
@@ -213,7 +217,7 @@ def build_coq(cdir):
                 open(os.path.join(qdir, "extract.log"), "w").write(r.stdout + r.stderr)
         json.dump(status, open(os.path.join(qdir, "status.json"), "w"), indent=1)
         open(os.path.join(qdir, "DONE"), "w").write(time.ctime())
-        prune("q-", 3)
+        prune("qm-" if model_only else "q-", 3)
     return qdir, status
 
 
